@@ -26,6 +26,7 @@ attribute [local simp] Natural.map_leaf Natural.map_cstr Natural.map_cint Natura
 def preS (p : List String) : Sym → Sym
   | .path q => .path (p ++ q)
   | .app f a => .app f (preS p a)
+  | .app2 f a b => .app2 f (preS p a) (preS p b)
 
 theorem mapM_some_map {A B : Type} (f : A → B) (l : List A) : l.mapM (fun a => some (f a)) = some (l.map f) := by
   induction l with
